@@ -26,6 +26,19 @@ class HarnessError(Exception):
     pass
 
 
+# process time zones a case may ask for ("tz" key, handled by Ctx.check): POSIX TZ strings, no zone files needed
+TZS = [None, None, None, "AAA-05:30", "PST8PDT,M3.2.0,M11.1.0", "BBB12", "CCC-13"]
+
+
+def draw_tz(draw, case):
+    """last draw of a case strategy: optionally run the case under a non-UTC process time zone"""
+    from hypothesis import strategies as st
+    tz = draw(st.sampled_from(TZS))
+    if tz:
+        case["tz"] = tz
+    return case
+
+
 ABORTED = [None]   # set by the wall-clock guard: every further check fails fast with a HarnessError
 
 
@@ -152,6 +165,10 @@ class Ctx:
         """Report an oracle mismatch or unexpected exception for the current case."""
         if case is None:
             case = self._current
+        elif isinstance(case, dict) and isinstance(self._current, dict) and self._current.get("tz") and "tz" not in case:
+            case = dict(case, tz=self._current["tz"])      # minimal cases inherit the process time zone they ran under
+        if isinstance(self._current, dict) and self._current.get("tz") and isinstance(detail, dict):
+            detail = dict(detail, process_tz=self._current["tz"])
         s = canon(case)
         v = self.violations.get(kind)
         if v is None:
@@ -189,6 +206,13 @@ class Ctx:
             raise HarnessError(ABORTED[0])
         self._current = case
         self._hit = set()
+        tz = case.get("tz") if isinstance(case, dict) else None
+        old_tz = os.environ.get("TZ")
+        if tz:
+            # the case asks for a process time zone (POSIX TZ string): results are defined in UTC and must not depend on it
+            os.environ["TZ"] = tz
+            time.tzset()
+            self.count("cases_under_non_utc_process_tz")
         try:
             fn(self, case)
         except HarnessError:
@@ -197,6 +221,12 @@ class Ctx:
             raise HarnessError("check_case crashed on %s\n%s" % (canon(case)[:2000], traceback.format_exc())) from e
         finally:
             self._current = None
+            if tz:
+                if old_tz is None:
+                    os.environ.pop("TZ", None)
+                else:
+                    os.environ["TZ"] = old_tz
+                time.tzset()
         return self._hit
 
     # ------------------------------------------------------------- hypothesis
